@@ -159,3 +159,35 @@ m("m04q", "C04", "sqllineage/core/metadata_provider.py",
   "        self._session_metadata[str(table)] = [c.raw_name for c in columns]\n",
   "        self._session_metadata[str(table)] = sorted(c.raw_name for c in columns)[:3]\n",
   "session keeps at most three columns per table")
+
+# ---------------------------------------------------------------- C14
+m("m14a", "C14", "sqllineage/core/models.py",
+  "        elif SQLLineageConfig.DEFAULT_SCHEMA:\n            self.raw_name = escape_identifier_name(SQLLineageConfig.DEFAULT_SCHEMA)\n",
+  "        elif _default_schema():\n            self.raw_name = escape_identifier_name(_default_schema())\n",
+  "default schema memoised in a module global at first use",
+  more=[("sqllineage/core/models.py",
+         "class Schema:\n",
+         "_DEFAULT_SCHEMA_CACHE: list = []\n\n\ndef _default_schema() -> str:\n    if not _DEFAULT_SCHEMA_CACHE:\n        _DEFAULT_SCHEMA_CACHE.append(SQLLineageConfig.DEFAULT_SCHEMA)\n    return _DEFAULT_SCHEMA_CACHE[0]\n\n\nclass Schema:\n")])
+m("m14b", "C14", "sqllineage/core/parser/sqlparse/models.py",
+  "        schema = Schema(parent_name) if parent_name is not None else Schema()\n        alias = table.get_alias()\n",
+  "        schema = Schema(parent_name) if parent_name is not None else _NO_SCHEMA\n        alias = table.get_alias()\n",
+  "legacy parser: unqualified tables share one Schema object created at import",
+  more=[("sqllineage/core/parser/sqlparse/models.py", "class SqlParseTable(Table):\n", "_NO_SCHEMA = Schema()\n\n\nclass SqlParseTable(Table):\n")])
+m("m14c", "C14", "sqllineage/config.py",
+  "            if (\n                value := self._thread_config.get(self.get_ident(), {}).get(item)\n            ) is not None:\n                return value\n",
+  "            if os.environ.get(\"SQLLINEAGE_\" + item) is None and (\n                value := self._thread_config.get(self.get_ident(), {}).get(item)\n            ) is not None:\n                return value\n",
+  "environment consulted before the thread override")
+m("m14d", "C14", "sqllineage/core/models.py",
+  "    def __init__(self, name: str, schema: Optional[Schema] = None, **kwargs):\n",
+  "    def __init__(self, name: str, schema: Optional[Schema] = Schema(), **kwargs):\n",
+  "import-time default restored (the repaired defect)")
+m("m14e", "C14", "sqllineage/core/parser/sqlfluff/extractors/create_insert.py",
+  "                    write_obj = SqlFluffTable.of(segment)\n",
+  "                    write_obj = _TABLE_CACHE.setdefault(segment.raw, SqlFluffTable.of(segment))\n",
+  "target tables cached by their raw text across statements and runs (schema frozen at first sight)",
+  more=[("sqllineage/core/parser/sqlfluff/extractors/create_insert.py", "class CreateInsertExtractor(BaseExtractor, SourceHandlerMixin):\n",
+         "_TABLE_CACHE: dict = {}\n\n\nclass CreateInsertExtractor(BaseExtractor, SourceHandlerMixin):\n")])
+m("m14f", "C14", "sqllineage/core/models.py",
+  "            self.schema = Schema(schema_name)\n",
+  "            self.schema = Schema(schema_name) if schema_name != SQLLineageConfig.DEFAULT_SCHEMA else Schema()\n",
+  "equivalent control: a name qualified with the default schema goes through the default path", expect="miss")
